@@ -15,7 +15,7 @@
    absent) by running the malformed stream under ASan/UBSan/LSan.
    Termination is structural (every model function is a Fixpoint on its input). *)
 From Coq Require Import ZArith List Bool.
-From VV Require Import Csv.CsvDefs Csv.SafeProofs Csv.HistoryDefs Csv.HistoryProofs.
+From VV Require Import Csv.CsvDefs Csv.SafeProofs Csv.HistoryDefs Csv.HistoryProofs Csv.StateDefs Csv.StateProofs.
 Import ListNotations.
 Local Open Scope Z_scope.
 
@@ -91,6 +91,69 @@ Theorem C10_history_readers_extend_plain :
         read_xrff_on is_number stod stoi uint_max v empty_df dom flt = read_xrff is_number stod stoi v dom flt).
 Proof. exact (conj read_csv_on_empty read_xrff_on_empty). Qed.
 Print Assumptions C10_history_readers_extend_plain.
+
+(* HISTORIES THAT GO ON AFTER A FAILING READ.  Csv/StateDefs.v returns the frame a throwing
+   read leaves behind (which members were already cleared / filled, following dataframe.cc:
+   missing <attributes> throws before clear(); a throwing record keeps the class-map entry and
+   the states inserted before the failing cell; the final insufficient_data keeps all the
+   examples; ...) and [run_history_st] continues with it.  For ANY sequence of CSV/XRFF reads
+   on one object, ANY start frame, ANY DOMs / texts / parameters / uint_max: no read of the
+   history -- in particular none of those after a failure -- goes out of bounds. *)
+Theorem C10_run_history_st_safe_partial :
+  forall is_number stod stoi uint_max steps df0,
+  no_oob (snd (run_history_st is_number stod stoi uint_max fixed_v df0 steps)).
+Proof. exact run_history_st_safe_lemma. Qed.
+Print Assumptions C10_run_history_st_safe_partial.
+
+(* whatever the earlier reads did, a read that returns normally returns a valid frame *)
+Theorem C10_read_csv_st_ok_partial :
+  forall is_number stod stoi df0 text p df n,
+  read_csv_st is_number stod stoi fixed_v df0 text p = (df, Ok n) ->
+  n = length (dataset df) /\ is_valid df = Ok true /\ dataset df <> [] /\ uniform_input_width df.
+Proof. exact read_csv_st_ok_lemma. Qed.
+Print Assumptions C10_read_csv_st_ok_partial.
+
+Theorem C10_read_xrff_st_ok_partial :
+  forall is_number stod stoi uint_max df0 dom flt df n,
+  read_xrff_st is_number stod stoi uint_max fixed_v df0 dom flt = (df, Ok n) ->
+  n = 0%nat \/ (n = length (dataset df) /\ is_valid df = Ok true /\ uniform_input_width df).
+Proof. exact read_xrff_st_ok_lemma. Qed.
+Print Assumptions C10_read_xrff_st_ok_partial.
+
+(* the state-returning readers refine the plain ones (any variant) *)
+Theorem C10_state_readers_refine :
+  (forall is_number stod stoi v df0 text p df,
+     read_csv_on is_number stod stoi v df0 text p = Ok df <->
+     read_csv_st is_number stod stoi v df0 text p = (df, Ok (length (dataset df))))
+  /\ (forall is_number stod stoi uint_max v df0 dom flt df n,
+        read_xrff_on is_number stod stoi uint_max v df0 dom flt = Ok (df, n) <->
+        read_xrff_st is_number stod stoi uint_max v df0 dom flt = (df, Ok n)).
+Proof. exact (conj read_csv_st_refines_count read_xrff_st_refines). Qed.
+Print Assumptions C10_state_readers_refine.
+
+(* src_problem (problem.cc): the constructor from a stream, data().read_*() and
+   setup_symbols() never go out of bounds, on ANY problem state; after a successful
+   construction, and after setup_symbols() following ANY successful read on ANY earlier state,
+   the symbol set matches the frame: variable ids are 0..n-1 and every stored example has
+   exactly n inputs (so every generated variable can be run on every example). *)
+Theorem C10_src_problem_safe_partial :
+  (forall is_number stod stoi text strong, safe (prob_construct is_number stod stoi fixed_v text strong))
+  /\ (forall pr strong, safe (snd (prob_setup_symbols fixed_v pr strong)))
+  /\ (forall is_number stod stoi pr text p, safe (snd (prob_read_csv is_number stod stoi fixed_v pr text p)))
+  /\ (forall is_number stod stoi uint_max pr dom, safe (snd (prob_read_xrff is_number stod stoi uint_max fixed_v pr dom))).
+Proof. exact (conj prob_construct_safe (conj prob_setup_symbols_safe (conj prob_read_csv_safe prob_read_xrff_safe))). Qed.
+Print Assumptions C10_src_problem_safe_partial.
+
+Theorem C10_src_problem_symbols_match_frame :
+  (forall is_number stod stoi text strong pr,
+     prob_construct is_number stod stoi fixed_v text strong = Ok pr ->
+     prob_consistent pr /\ length (p_vars pr) = prob_variables pr)
+  /\ (forall is_number stod stoi pr text p df n strong pr' m,
+        read_csv_st is_number stod stoi fixed_v (training pr) text p = (df, Ok n) ->
+        prob_setup_symbols fixed_v {| training := df; p_vars := p_vars pr; p_other := p_other pr |} strong = (pr', Ok m) ->
+        prob_consistent pr' /\ length (p_vars pr') = prob_variables pr').
+Proof. exact (conj prob_construct_consistent prob_setup_symbols_consistent). Qed.
+Print Assumptions C10_src_problem_symbols_match_frame.
 
 (* non-vacuity of the history theorems: without the guards (pinned variant) a second read_xrff
    with an EMPTY attribute list on a frame that has columns, and read_csv with an output index
